@@ -615,7 +615,7 @@ func DriverMain(id, tier string, seed int64, exe, raceExe, replay string) int {
 
 	nDistinct := len(distinct)
 	total := len(all)
-	if exit == 0 {
+	if exit == 0 && replay == "" {
 		if nDistinct < chk.MinDistinct || nDistinct < 2 {
 			fmt.Printf("COVERAGE-FLOOR-MISSED distinct=%d floor=%d\n", nDistinct, chk.MinDistinct)
 			exit = 2
